@@ -184,6 +184,23 @@ func runRules(p *Prog, ids []string) *RunResult {
 			}()
 			r.Run(c)
 		}()
+		// a selector Rnn[a,b] on a rule that does not interpret selectors itself restricts the rule to the
+		// obligations anchored in functions whose name contains one of the selector words
+		if len(args) > 0 && id != "R0" && id != "R14" {
+			var kept []Obligation
+			for _, o := range obs {
+				keep := o.Vanished
+				for _, a := range args {
+					if strings.Contains(o.Func, a) {
+						keep = true
+					}
+				}
+				if keep {
+					kept = append(kept, o)
+				}
+			}
+			obs = kept
+		}
 		n := 0
 		for _, o := range obs {
 			if !o.Vanished {
